@@ -614,6 +614,10 @@ func (en *SpecEnv) evalCall(c *ast.CallExpr) Val {
 			return mathInt(v.Dat)
 		}
 		return mathInt(v.S)
+	case "closed":
+		// closed(ch): the channel has been closed (tracked only in functions with opt chanstate)
+		v := en.eval(c.Args[0])
+		return boolVal(mkSel(en.hs(v).heapGet(chanClosedArr, arrSort(sBool)), v.S))
 	case "iszero":
 		// iszero(v): v equals the zero value of its Go type
 		v := en.eval(c.Args[0])
